@@ -621,6 +621,29 @@ def _ev(e, env):
                 return False
             left = right
         return True
+    if isinstance(e, ast.JoinedStr):
+        parts = []
+        for v_ in e.values:
+            if isinstance(v_, ast.Constant):
+                parts.append(str(v_.value))
+            elif isinstance(v_, ast.FormattedValue):
+                x_ = _ev(v_.value, env)
+                if isinstance(x_, (ModelObj, FuncObj, Raised)) and v_.conversion == -1 and v_.format_spec is None:
+                    x_ = "<%s>" % getattr(x_, "name", "object")
+                if v_.conversion == 114:
+                    x_ = repr(x_)
+                elif v_.conversion == 115:
+                    x_ = str(x_)
+                elif v_.conversion == 97:
+                    x_ = ascii(x_)
+                spec_ = _ev(v_.format_spec, env) if v_.format_spec is not None else ""
+                try:
+                    parts.append(format(x_, spec_))
+                except (TypeError, ValueError) as ex_:
+                    raise Raised(type(ex_).__name__)
+            else:
+                raise AnalysisError("miniinterp: unsupported f-string part")
+        return "".join(parts)
     if isinstance(e, ast.IfExp):
         return _ev(e.body, env) if _ev(e.test, env) else _ev(e.orelse, env)
     if isinstance(e, ast.DictComp):
